@@ -179,6 +179,17 @@ class Prop(object):
                     probs.append(('self-verify', '%s: key.verify(key) raised %r' % (who, e)))
                 if str(obj.fingerprint) != rkeys.fingerprint(w.raw).hex().upper():
                     probs.append(('fingerprint', '%s: fingerprint changed' % who))
+            # key-level state that PGPy derives from the ORDER of the identities (expiry, flags of the first identity): the live private key, its
+            # public twin, a copy and the re-imported key are the same key - same order, same expiry
+            import copy as _copy
+            views = [(who, H.key_view(blob), obj) for who, blob, obj in forms] + [('copy', H.key_view(bytes(_copy.copy(w.key))), _copy.copy(w.key))]
+            order0 = [(k, d) for k, d, _ss in views[0][1]['ids']]
+            exp0 = views[0][2].expires_at
+            for who, v, obj in views[1:]:
+                if [(k, d) for k, d, _ss in v['ids']] != order0:
+                    probs.append(('identity-order', '%s lists the identities in another order than the private key' % who))
+                if obj.expires_at != exp0:
+                    probs.append(('key-expiry', '%s: expires_at %r, private key %r' % (who, obj.expires_at, exp0)))
             # the public twin shows the same public state as the private key
             a, b = H.key_view(forms[0][1]), H.key_view(forms[1][1])
             if H.canon(a, w.model, 0).replace('True', 'X', 1) == '':
